@@ -420,10 +420,11 @@ static int do_run(const Args &a)
 		Verdict bv = v;
 		int64_t budget = a.shrink_budget, runs = 0;
 		bool progress = true;
-		while (progress && budget > 0) {
+		double tshrink = now_s();
+		while (progress && budget > 0 && now_s() - tshrink < 60.0) {
 			progress = false;
 			for (auto &c : e->candidates(best)) {
-				if (budget-- <= 0)
+				if (budget-- <= 0 || now_s() - tshrink > 60.0)
 					break;
 				Stats tmp;
 				Verdict cv = e->judge(c, tmp, false);
